@@ -1137,6 +1137,43 @@ Proof.
     transitivity b; [apply I1|apply I4]; auto.
 Qed.
 
+(** canonical JSON values are already in normal form, so std.equals (= equals_core after [norm]) is
+    equals_core on them *)
+Fixpoint norm_fields (fs : fields) : fields :=
+  match fs with
+  | [] => []
+  | (k, (h, x)) :: r => insert_field (k, (h, norm x)) (norm_fields r)
+  end.
+Lemma norm_obj fs : norm (VObj fs) = VObj (norm_fields fs).
+Proof. reflexivity. Qed.
+
+Lemma norm_json v : json v = true -> norm v = v.
+Proof.
+  induction v using val_ind2; intros J; try reflexivity.
+  - simpl. f_equal. simpl in J. induction H as [|x r Hx Hr IH]; simpl; auto.
+    simpl in J. apply andb_prop in J. destruct J as [J1 J2]. rewrite Hx, IH; auto.
+  - rewrite norm_obj. f_equal. rewrite json_obj in J. apply andb_prop in J. destruct J as [S J].
+    induction H as [|[k [h x]] r Hx Hr IH]; simpl; auto.
+    simpl in J, S, Hx. apply andb_prop in J. destruct J as [J1 J2]. apply andb_prop in J1. destruct J1 as [_ Jx].
+    apply andb_prop in S. destruct S as [S1 S2].
+    rewrite IH, Hx; auto. destruct r as [|[k' hv'] r']; simpl; auto.
+    simpl in S1. unfold str_ltb in *. rewrite (str_cmp_antisym k k').
+    destruct (str_cmp k k'); simpl; try discriminate; auto.
+Qed.
+
+Lemma equals_spec_json a b : json a = true -> json b = true -> equals_spec a b = equals_core a b.
+Proof. intros Ja Jb. unfold equals_spec. rewrite !norm_json; auto. Qed.
+
+Lemma equals_spec_equiv a b c :
+  json a = true -> json b = true -> json c = true ->
+  (exists r, equals_spec a b = Ok r /\ (r = true <-> a = b)) /\
+  equals_spec a a = Ok true /\
+  equals_spec a b = equals_spec b a /\
+  (equals_spec a b = Ok true -> equals_spec b c = Ok true -> equals_spec a c = Ok true).
+Proof.
+  intros Ja Jb Jc. rewrite !equals_spec_json by auto. apply equals_equiv; auto.
+Qed.
+
 (** * non-vacuity: the hypotheses of the theorems have non-trivial instances *)
 Example wf_ex : wf_fields [(nm "b", (false, VNum 1)); (nm "a", (true, VBomb 7))].
 Proof. repeat constructor; simpl; intuition; discriminate. Qed.
